@@ -19,7 +19,7 @@ from .sockmodel import mk_sock, mk_file, rope_struct_eq, suffix_after, SOCK, ose
 from . import http_wsgi as W
 
 inline("gunicorn.util:write_nonblock", "gunicorn.util:close", "gunicorn.workers.sync:SyncWorker.accept",
-       "gunicorn.http.wsgi:Response.__init__")
+       "gunicorn.http.wsgi:Response.__init__", "gunicorn.workers.base_async:AsyncWorker.is_already_handled")
 
 
 # ---- small external models ----------------------------------------------------------------------------------------
@@ -412,7 +412,8 @@ class AppCall(Contract):
         st.assume(so.fields["g_wl"].t >= wl0, Implies(ro.fields["response_length"].some, L >= 0))
         for (_n, f) in W.RI_resp(cc, st):
             st.assume(f)
-        st.assume(Or(ro.fields["status_code"].some, ro.fields["response_length"].some, TRUE))
+        # PEP 3333: the status string starts with a 3-digit code, so Response.status_code is an int
+        st.assume(ro.fields["status_code"].some)
         app = st.obj(c.a["self"])
         app.fields["g_calls"] = SInt(app.fields["g_calls"].t + 1)
         app.fields["g_returned"] = SBool(True)
@@ -493,3 +494,208 @@ def _fw_iter(ex, st, v, as_list=False):
     if isinstance(v, Ref) and isinstance(st.obj(v), HObj) and st.obj(v).cls == "FileWrapper":
         return AppIterSteps(v)
     return None
+
+
+# ======================================================================================================
+# handle_request (sync / gthread / base_async)
+# ======================================================================================================
+def spec_should_close(c, st, resp):
+    cc = Ctx(c.ex, st, {"self": resp})
+    has_len, _ = W.opt_int(W.F(cc, st, "response_length"))
+    has_code, code = W.opt_int(W.F(cc, st, "status_code"))
+    req_close = c.ex.truth(st.obj(W.F(cc, st, "req")).fields["g_close"], st)
+    delimited = Or(has_len, W.T_(cc, st, "chunked"), W.is_head(cc, st), And(has_code, Or(code < 200, code == 204, code == 304)))
+    return Or(W.T_(cc, st, "must_close"), req_close, Not(delimited))
+
+
+class _HandleRequest(Contract):
+    worker_cls = None
+    worker_mod = None
+    weight = 3
+
+    def mk_args(self, env, st, slf):
+        raise NotImplementedError
+
+    def cases(self, env):
+        out = []
+        for kind in ("iter", "file"):
+            st = W.base_state(env)
+            app = mk_app(env, st)
+            slf, log = mk_worker(env, st, self.worker_cls, self.worker_mod, wsgi=app, **self.extra_fields(env, st))
+            args = self.mk_args(env, st, slf)
+            env.class_models["FileWrapper"] = FILEWRAP
+            if _fw_iter not in env.iter_models:
+                env.iter_models.append(_fw_iter)
+            out.append(("respiter=" + kind, st, args, {"respiter": kind, "app": app, "log": log}))
+        return out
+
+    def extra_fields(self, env, st):
+        return {}
+
+    def client(self, c):
+        raise NotImplementedError
+
+    def raises(self, c):
+        E = http_errs(c.ex.env)
+        return [(OSError, None), (StopIteration, None), (AppError, None), (AppBaseError, None), (E.ConfigurationProblem, None), (UnicodeEncodeError, None)]
+
+    def common_post(self, c, exc=None):
+        """clauses that hold on EVERY exit (normal or exceptional)"""
+        st1, st0 = c.st, c.old
+        o1, o0 = st1.obj(c.a["self"]), st0.obj(c.a["self"])
+        log1, log0 = st1.obj(c.g["log"]), st0.obj(c.g["log"])
+        app1 = st1.obj(c.g["app"])
+        d = log1.fields["g_access"].t - log0.fields["g_access"].t
+        returned = c.ex.truth(app1.fields["g_returned"], st1)
+        resp = st1.ghost.get("resp")
+        out = [("exactly-one-access-record-iff-the-application-call-returned", d == If(returned, iv(1), iv(0)))]
+        if resp is not None:
+            ro = st1.obj(resp)
+            ls, lst = log1.fields.get("g_last_sent"), log1.fields.get("g_last_status")
+            if ls is not None and isinstance(ls, SInt):
+                out.append(("record-carries-the-final-byte-count", Implies(returned, ls.t == ro.fields["sent"].t)))
+            if lst is not None and isinstance(lst, SStr) and isinstance(ro.fields["status"], SStr):
+                out.append(("record-carries-the-status-that-was-sent", Implies(returned, str_eq(lst, ro.fields["status"]))))
+            nr1, nr0 = o1.fields["nr"].t, o0.fields["nr"].t
+            out += [("request-counter-incremented", nr1 == nr0 + 1),
+                    ("worker-stops-accepting-at-max_requests", Implies(nr1 >= o0.fields["max_requests"].t, Not(c.ex.truth(o1.fields["alive"], st1)))),
+                    ("alive-untouched-below-max_requests", Implies(nr1 < o0.fields["max_requests"].t,
+                                                                   c.ex.truth(o1.fields["alive"], st1) == c.ex.truth(o0.fields["alive"], st0)))]
+        return out
+
+    def exc_post(self, c):
+        out = self.common_post(c)
+        resp = c.st.ghost.get("resp")
+        cl = c.st.obj(self.client(c))
+        if c.exc is not None and c.exc.cls is StopIteration and resp is not None and not self.stopiter_is_close(c):
+            out.append(("StopIteration=>head-was-sent-and-connection-torn-down", And(c.ex.truth(c.st.obj(resp).fields["headers_sent"], c.st))))
+        if c.exc is not None and c.exc.cls in (AppError, AppBaseError) and resp is not None:
+            out.append(("application-error-propagates-only-before-any-byte-of-the-head", Not(c.ex.truth(c.st.obj(resp).fields["headers_sent"], c.st))))
+        return out
+
+    def stopiter_is_close(self, c):
+        return False
+
+    def post(self, c):
+        out = self.common_post(c)
+        resp = c.st.ghost.get("resp")
+        if resp is None:
+            return out + [("response-created", FALSE)]
+        ro = c.st.obj(resp)
+        out += [("response-completed:head-sent", c.ex.truth(ro.fields["headers_sent"], c.st)),
+                ("response-completed:close()-ran", c.ex.truth(ro.fields.get("g_closed", SBool(False)), c.st))]
+        return out
+
+
+def _rcc(L):
+    class C:
+        pass
+    c = C()
+    c.st, c.ex, c.a, c.mode = L.st, L.ex, {"self": L.st.ghost["resp"]}, "verify"
+    return c
+
+
+def _log(L, st):
+    return st.obj(st.obj(L.self).fields["log"])
+
+
+HR_LOOP = {0: dict(anchor="for item in respiter", cands=[
+    ("RI(resp)", lambda L: And(*[f for _, f in W.RI_resp(_rcc(L), L.st)])),
+    ("send_headers-pre", lambda L: And(*[f for _, f in W.SendHeaders.pre(W.SendHeaders(), _rcc(L))])),
+    ("chunked-fixed", lambda L: L.ex.truth(L.st.obj(L.st.ghost["resp"]).fields["chunked"], L.st) == L.ex.truth(L.entry.obj(L.entry.ghost["resp"]).fields["chunked"], L.entry)),
+    ("no-record-yet", lambda L: _log(L, L.st).fields["g_access"].t == _log(L, L.entry).fields["g_access"].t),
+    ("not-closed-yet", lambda L: Not(L.ex.truth(L.st.obj(L.st.ghost["resp"]).fields["g_closed"], L.st))),
+])}
+_HandleRequest.loops = HR_LOOP
+
+
+def _resp_close_effects(self, c):
+    c.st.obj(c.a["self"]).fields["g_closed"] = SBool(True)
+
+
+W.RespClose.effects = _resp_close_effects
+
+
+@contract("gunicorn.workers.sync:SyncWorker.handle_request", props=("C02", "C18", "C19"))
+class SyncHandleRequest(_HandleRequest):
+    worker_cls, worker_mod = "SyncWorker", "gunicorn.workers.sync"
+
+    def mk_args(self, env, st, slf):
+        return {"self": slf, "listener": mk_sock(env, st, "listener"), "req": mk_reqobj(env, st), "client": mk_sock(env, st, "client"),
+                "addr": STuple([strops.fresh_str(st, "addr.host", True), SInt(fresh_int("addr.port"))])}
+
+    def client(self, c):
+        return c.a["client"]
+
+    def post(self, c):
+        out = _HandleRequest.post(self, c)
+        resp = c.st.ghost.get("resp")
+        if resp is not None:
+            out.append(("sync-worker-never-keeps-the-connection", c.ex.truth(c.st.obj(resp).fields["must_close"], c.st)))
+        return out
+
+
+@contract("gunicorn.workers.gthread:ThreadWorker.handle_request", props=("C02", "C18", "C19"))
+class ThreadHandleRequest(_HandleRequest):
+    worker_cls, worker_mod = "ThreadWorker", "gunicorn.workers.gthread"
+
+    def extra_fields(self, env, st):
+        keep = st.alloc(HList(sym=ListShape(IntShape()).fresh_seq(st, "_keep", view=False)))
+        mk = z3.Int("self.max_keepalived")
+        return {"_keep": keep, "max_keepalived": SInt(mk)}
+
+    def mk_args(self, env, st, slf):
+        env.use_class("gunicorn.workers.gthread", "TConn")
+        conn = st.alloc(HObj("TConn", {"sock": mk_sock(env, st, "client"), "client": Opaque("addr"), "server": Opaque("server")}))
+        return {"self": slf, "req": mk_reqobj(env, st), "conn": conn}
+
+    def client(self, c):
+        return c.st.obj(c.a["conn"]).fields["sock"]
+
+    def result_shape(self, c):
+        return BoolShape()
+
+    def post(self, c):
+        out = _HandleRequest.post(self, c)
+        resp = c.st.ghost.get("resp")
+        if resp is not None:
+            keep = c.ex.truth(c.result, c.st)
+            ro = c.st.obj(resp)
+            o0 = c.old.obj(c.a["self"])
+            cfg = c.field(o0.fields["cfg"], "keepalive", c.old)
+            out += [("keep-alive-only-if-the-response-does-not-require-close", keep == Not(spec_should_close(c, c.st, resp))),
+                    ("no-keep-alive-when-stopping-or-disabled", Implies(Or(Not(c.ex.truth(c.st.obj(c.a["self"]).fields["alive"], c.st)), cfg.t == 0), Not(keep)))]
+        return out
+
+
+@contract("gunicorn.workers.base_async:AsyncWorker.handle_request", props=("C02", "C18", "C19"))
+class AsyncHandleRequest(_HandleRequest):
+    worker_cls, worker_mod = "AsyncWorker", "gunicorn.workers.base_async"
+
+    def mk_args(self, env, st, slf):
+        return {"self": slf, "listener_name": Opaque("sockname"), "req": mk_reqobj(env, st), "sock": mk_sock(env, st, "client"),
+                "addr": STuple([strops.fresh_str(st, "addr.host", True), SInt(fresh_int("addr.port"))])}
+
+    def client(self, c):
+        return c.a["sock"]
+
+    def result_shape(self, c):
+        return BoolShape()
+
+    def stopiter_is_close(self, c):
+        return True      # base_async signals "close the connection" to its keep-alive loop with StopIteration
+
+    def exc_post(self, c):
+        out = _HandleRequest.exc_post(self, c)
+        resp = c.st.ghost.get("resp")
+        if c.exc is not None and c.exc.cls is StopIteration and resp is not None:
+            ro = c.st.obj(resp)
+            out.append(("StopIteration=>close-required-or-error-after-the-head", Or(spec_should_close(c, c.st, resp), c.ex.truth(ro.fields["headers_sent"], c.st))))
+        return out
+
+    def post(self, c):
+        out = _HandleRequest.post(self, c)
+        resp = c.st.ghost.get("resp")
+        if resp is not None:
+            out.append(("returns-normally-only-if-keep-alive-is-safe", Not(spec_should_close(c, c.st, resp))))
+        return out
